@@ -11,7 +11,7 @@ def bounds(tier):
         return {'domain': '(A,B,C) sizes (2,2,2)', 'deviations': 1, 'noise_answers': QUICK_ALTS, 'datasets': ['conc6', 'spread20'],
                 'eps_delta': [[1.0, 1e-6], [10.0, 1e-3]], 'aim_default_rounds': 'default execution only'}
     return {'domain': '(A,B,C) sizes (2,3,2)', 'deviations': 2, 'noise_answers': FULL_ALTS, 'datasets': ['conc6', 'spread20', 'single'],
-            'eps_delta': [[1.0, 1e-6], [0.1, 1e-9], [10.0, 1e-3]], 'caps': 'per (spec, dataset): 400 base executions'}
+            'eps_delta': [[1.0, 1e-6], [0.1, 1e-9], [10.0, 1e-3]], 'caps': 'per (spec, dataset): 150 (AIM, MWEM) / 120 (MST, adaptive grid) base executions'}
 
 
 def specs(tier):
@@ -26,6 +26,8 @@ def specs(tier):
                 out.append({'mech': 'aim', 'eps': eps, 'delta': delta, 'rounds': rounds, 'workload': [list(c) for c in wl]})
         mw = itertools.product(['gaussian', 'laplace'], [False, True], [1, 2] if tier == 'quick' else [1, 2, 3], [0.9] if tier == 'quick' else [0.9, 0.5])
         for noise, bounded, rounds, alpha in mw:
+            if tier == 'thorough' and alpha == 0.5 and rounds != 2:
+                continue
             out.append({'mech': 'mwem', 'eps': eps, 'delta': delta, 'noise': noise, 'bounded': bounded, 'rounds': rounds, 'alpha': alpha})
         if tier == 'quick':
             out.append({'mech': 'mwem', 'eps': eps, 'delta': delta, 'noise': 'gaussian', 'bounded': False, 'rounds': 2, 'alpha': 0.5})
@@ -43,9 +45,11 @@ def jobs(tier, seed):
         dss = ['conc6', 'spread20'] if tier == 'quick' else ['conc6', 'spread20', 'single']
         if tier == 'quick' and spec['mech'] == 'mwem' and spec['bounded']:
             dss = ['conc6']
+        if tier == 'thorough' and spec['mech'] in ('aim', 'mwem'):
+            dss = ['conc6', 'spread20'] if not spec.get('bounded') else ['conc6', 'single']
         for ds in dss:
             bound = 1 if tier == 'quick' else 2
-            cap = None if tier == 'quick' else 400
+            cap = None if tier == 'quick' else (150 if spec['mech'] in ('aim', 'mwem') else 120)
             if spec['mech'] == 'aim' and spec.get('rounds') is None:
                 bound = 0 if tier == 'quick' else 1
                 cap = 60
